@@ -64,6 +64,43 @@ def styled_chars(data, colors=True):
     return out
 
 
+_CURRENT = [None]
+
+
+class _SaveFile:
+    """What rich.console's `open(path, "wt")` returns in simulation: an in-memory file whose
+    open and write are yield points."""
+
+    def __init__(self, prog):
+        self.prog = prog
+        self.buf = []
+
+    def write(self, text):
+        self.prog.sim.yield_point("save-write")
+        self.buf.append(text)
+        return len(text)
+
+    def __enter__(self):
+        return self
+
+    def __exit__(self, *exc):
+        return False
+
+    def getvalue(self):
+        return "".join(self.buf)
+
+
+def _fake_open(path, mode="r", *args, **kwargs):
+    prog = _CURRENT[0]
+    if prog is None or not str(path).startswith("sim://"):
+        import builtins
+
+        return builtins.open(path, mode, *args, **kwargs)
+    prog.sim.yield_point("save-open")
+    f = prog.save_files[path] = _SaveFile(prog)
+    return f
+
+
 class _Boom:
     """A renderable that raises before it yields anything."""
 
@@ -114,7 +151,7 @@ class C15:
             for ops in threads:
                 for j, op in enumerate(ops):
                     if op[0] == "export_text":
-                        ops[j] = ["export_text", True, False] if rng.random() < 0.5 else ["export_html", True, rng.random() < 0.5]
+                        ops[j] = ["export_text", True, False, rng.random() < 0.4] if rng.random() < 0.5 else ["export_html", True, rng.random() < 0.5, rng.random() < 0.4]
             final = [["export_text", True, False]]
         return {"cfg": cfg, "threads": threads, "final": final, "mt_mode": mt_mode}
 
@@ -218,11 +255,11 @@ class C15:
             return ["markup", "K%d_%dz [bold]b[/bold] [link=https://e.x/?a=1&b=2]l[/link] \\[esc] &lt;" % (t, cnt[0])]
         if not single:
             if r < 0.94:
-                return ["export_text", False, False]
+                return ["export_text", False, False, rng.random() < 0.3]
             return ["print", self._gen_text(rng, t, cnt), ""]
         if r < 0.94:
-            return ["export_text", rng.random() < 0.4, rng.random() < 0.4]
-        return ["export_html", rng.random() < 0.4, rng.random() < 0.5]
+            return ["export_text", rng.random() < 0.4, rng.random() < 0.4, rng.random() < 0.3]
+        return ["export_html", rng.random() < 0.4, rng.random() < 0.5, rng.random() < 0.3]
 
     def setup(self, sim, case, env):
         return Prog(sim, case, env)
@@ -293,6 +330,12 @@ class Prog:
                                log_time=False, log_path=False, record=True)
         self.pristine = Pristine(cfg["width"], 25, cfg["color"], clock=self.clock, terminal=cfg["terminal"])
         self.viol = []
+        self.save_files = {}
+        self.nsaves = 0
+        _CURRENT[0] = self
+        import rich.console as _rc
+
+        _rc.open = _fake_open  # file seam for save_text / save_html (module global shadows the builtin)
         self.rec_start = 0  # index into file.writes at the last clearing export
         self.n = len(case["threads"])
         self.done = 0
@@ -383,6 +426,25 @@ class Prog:
     def visible_since(self):
         return term.visible_text("".join(w[2] for w in self.file.writes[self.rec_start:]))
 
+    def _export_text(self, con, op, **kw):
+        """export_text, or save_text to a simulated file when the operation says so."""
+        if len(op) > 3 and op[3]:
+            self.nsaves += 1
+            self.probes["saves"] = self.probes.get("saves", 0) + 1
+            path = "sim://t%d-%d.txt" % (self.sim.me().tid, self.nsaves)
+            con.save_text(path, **kw)
+            return self.save_files.pop(path).getvalue()
+        return con.export_text(**kw)
+
+    def _export_html(self, con, op, **kw):
+        if len(op) > 3 and op[3]:
+            self.nsaves += 1
+            self.probes["saves"] = self.probes.get("saves", 0) + 1
+            path = "sim://t%d-%d.html" % (self.sim.me().tid, self.nsaves)
+            con.save_html(path, **kw)
+            return self.save_files.pop(path).getvalue()
+        return con.export_html(**kw)
+
     def _expected(self, ops):
         """The bytes a capture around `ops` has to return: what each operation would have written on
         its own, in order; a nested capture keeps its output to itself; a buffered block is its parts."""
@@ -444,9 +506,9 @@ class Prog:
         elif k in ("export_text", "export_html") and not self.single and self.case.get("mt_mode") == "drain":
             self.probes["draining_exports"] = self.probes.get("draining_exports", 0) + 1
             if k == "export_text":
-                text = con.export_text(clear=True, styles=False)
+                text = self._export_text(con, op, clear=True, styles=False)
             else:
-                doc = con.export_html(clear=True, inline_styles=op[2])
+                doc = self._export_html(con, op, clear=True, inline_styles=op[2])
                 m = re.search(r"<pre[^>]*>(.*)</pre>", doc, re.S)
                 text = html_text(m.group(1)) if m else ""
             self.drained.append(TOKEN.findall(text))
@@ -470,11 +532,11 @@ class Prog:
                 # concurrent export without clear: whatever it returns must be a prefix of the order
                 # in which the output finally reached the file (checked at quiescence)
                 self.probes["concurrent_exports"] = self.probes.get("concurrent_exports", 0) + 1
-                self.mid_exports.append(TOKEN.findall(con.export_text(clear=False, styles=False)))
+                self.mid_exports.append(TOKEN.findall(self._export_text(con, op, clear=False, styles=False)))
                 return
             V = self.visible_since()
             raw = "".join(w[2] for w in self.file.writes[self.rec_start:])
-            got = con.export_text(clear=clear, styles=styles)
+            got = self._export_text(con, op, clear=clear, styles=styles)
             if styles:
                 self.probes["exports_styled"] += 1
                 try:
@@ -502,7 +564,7 @@ class Prog:
                 return
             self.probes["exports_html"] += 1
             V = self.visible_since()
-            doc = con.export_html(clear=clear, inline_styles=inline)
+            doc = self._export_html(con, op, clear=clear, inline_styles=inline)
             m = re.search(r"<pre[^>]*>(.*)</pre>", doc, re.S)
             if not m:
                 self._v("export-html", "html-shape", "export_html() has no <pre> body")
